@@ -174,3 +174,60 @@ package agent
 //@ modifies *, c07sent
 //@ at call SendToPeer#0 assert $2.Payload == frame.Payload && $2.Flags == frame.Flags && $2.Type == protocol.FrameStreamData
 //@ at call SendToPeer#1 assert $2.Payload == frame.Payload && $2.Flags == frame.Flags && $2.Type == protocol.FrameStreamData
+
+// ---- C16 / C17: the relay table (shared by TCP streams, UDP associations and ICMP sessions) ----
+//
+// Well-formedness, an invariant of the table's mutex: every entry found under a key of one index has
+// that key as its id on that side and is the entry found under its other id in the other index. With
+// it, a lookup by either id returns the one tunnel that owns the id, removal by either id removes the
+// tunnel from both indices, and DeleteByPeer (which walks one index only) leaves no entry that names
+// the peer in either index.
+
+//@ guarded relayTable.mu: byUpstream, byDownstream
+//@ lockinv relayTable.mu(r): (forall k uint64: has(r.byUpstream, k) ==> r.byUpstream[k] != nil && r.byUpstream[k].UpstreamID == k && has(r.byDownstream, r.byUpstream[k].DownstreamID) && r.byDownstream[r.byUpstream[k].DownstreamID] == r.byUpstream[k]) && (forall k uint64: has(r.byDownstream, k) ==> r.byDownstream[k] != nil && r.byDownstream[k].DownstreamID == k && has(r.byUpstream, r.byDownstream[k].UpstreamID) && r.byUpstream[r.byDownstream[k].UpstreamID] == r.byDownstream[k])
+
+//@ func (*relayTable).Insert
+//@ prop C16 C17
+//@ check lockset
+//@ requires e != nil
+//@ modifies *
+
+//@ func (*relayTable).Delete
+//@ prop C16 C17
+//@ check lockset
+//@ requires e != nil
+//@ modifies *
+
+//@ func (*relayTable).LookupBoth
+//@ prop C16
+//@ check lockset
+//@ ensures up != nil ==> up.UpstreamID == streamID
+//@ ensures down != nil ==> down.DownstreamID == streamID
+
+//@ func (*relayTable).LookupDownstream
+//@ prop C16
+//@ check lockset
+//@ ensures result != nil ==> result.DownstreamID == streamID
+
+//@ func (*relayTable).PopDownstreamFromPeer
+//@ prop C16 C17
+//@ check lockset
+//@ modifies *
+//@ ensures result != nil ==> result.DownstreamID == streamID && result.DownstreamPeer == peer
+
+//@ func (*relayTable).PopMatchingPeer
+//@ prop C16 C17
+//@ check lockset
+//@ modifies *
+//@ ensures entry != nil && fromUpstream ==> entry.UpstreamID == streamID && entry.UpstreamPeer == peer
+//@ ensures entry != nil && !fromUpstream ==> entry.DownstreamID == streamID && entry.DownstreamPeer == peer
+
+//@ func (*relayTable).DeleteByPeer
+//@ prop C17
+//@ check lockset
+//@ modifies *
+//@ loop 0 invariant forall k uint64: has(r.byUpstream, k) ==> r.byUpstream[k] != nil && r.byUpstream[k].UpstreamID == k && has(r.byDownstream, r.byUpstream[k].DownstreamID) && r.byDownstream[r.byUpstream[k].DownstreamID] == r.byUpstream[k]
+//@ loop 0 invariant forall k uint64: has(r.byDownstream, k) ==> r.byDownstream[k] != nil && r.byDownstream[k].DownstreamID == k && has(r.byUpstream, r.byDownstream[k].UpstreamID) && r.byUpstream[r.byDownstream[k].UpstreamID] == r.byDownstream[k]
+//@ loop 0 invariant forall k uint64: visited(k) && has(r.byUpstream, k) ==> r.byUpstream[k].UpstreamPeer != peer && r.byUpstream[k].DownstreamPeer != peer
+//@ at call Unlock assert forall k uint64: has(r.byUpstream, k) ==> r.byUpstream[k].UpstreamPeer != peer && r.byUpstream[k].DownstreamPeer != peer
+//@ at call Unlock assert forall k uint64: has(r.byDownstream, k) ==> r.byDownstream[k].UpstreamPeer != peer && r.byDownstream[k].DownstreamPeer != peer
